@@ -192,10 +192,10 @@ theorem rts_entryEffect_base (env : Env) (k v : Text) (base : Col α) (hb : Base
 /-! ### the intended result -/
 
 /-- all step items of the document, in order -/
-def docItems : List (SBlock α) → List (SItem α)
+def docStepItems : List (SBlock α) → List (SItem α)
   | [] => []
-  | .step st :: r => st ++ docItems r
-  | _ :: r => docItems r
+  | .step st :: r => st ++ docStepItems r
+  | _ :: r => docStepItems r
 
 /-- the metadata entries of the document, in order -/
 def docEntries : List (SBlock α) → List (Text × Text)
@@ -229,9 +229,9 @@ def deprecation (spans : List Span) : Array Diag :=
 structure DocResult (env : Env) (base : Col α) (before : List (SItem α)) (content : List Content) (n : Nat)
     (blocks : List (SBlock α)) (c : Col α) : Prop where
   sections : c.sections = base.sections ++ docSecs env before ⟨base.cur.name, content⟩ n blocks
-  ingredients : c.ingredients = ((ingrsOf (before ++ docItems blocks)).map (ingrOf env)).toArray
-  cookware : c.cookware = ((cwsOf (before ++ docItems blocks)).map (cwOf env)).toArray
-  timers : c.timers = ((timersOf (before ++ docItems blocks)).map (timerOf env)).toArray
+  ingredients : c.ingredients = ((ingrsOf (before ++ docStepItems blocks)).map (ingrOf env)).toArray
+  cookware : c.cookware = ((cwsOf (before ++ docStepItems blocks)).map (cwOf env)).toArray
+  timers : c.timers = ((timersOf (before ++ docStepItems blocks)).map (timerOf env)).toArray
   metaMap : c.metaMap = docMeta env base.metaMap (docEntries blocks)
   used : c.oldStyleUsed = base.oldStyleUsed ++ docSpans (docEntries blocks)
   diags : c.diags = base.diags ++ deprecation (base.oldStyleUsed ++ docSpans (docEntries blocks))
@@ -263,7 +263,7 @@ theorem rts_final (env : Env) (input : Str) (base : Col α) (before : List (SIte
     by_cases h1 : Section.isEmpty ⟨base.cur.name, content⟩ = true <;>
       by_cases h2 : base.oldStyleUsed.isEmpty = true <;>
       constructor <;>
-        simp [stOfX, h1, h2, docSecs, docItems, docEntries, docMeta, docSpans, deprecation]
+        simp [stOfX, h1, h2, docSecs, docStepItems, docEntries, docMeta, docSpans, deprecation]
 
 theorem rts_loop_doc (env : Env) (input : Str) (hadv : env.ext.has Gen.EXT_ADVANCED_UNITS = false)
     (hinl : env.ext.has Gen.EXT_INLINE_QUANTITIES = false) :
@@ -287,7 +287,7 @@ theorem rts_loop_doc (env : Env) (input : Str) (hadv : env.ext.has Gen.EXT_ADVAN
       refine ⟨c, ?_, ?_⟩
       · rw [List.flatMap_cons, SBlock.events, rts_loop_step env input hadv hinl base hb _ st hs hne, h1]
       · obtain ⟨a1, a2, a3, a4, a5, a6, a7, a8, a9⟩ := h2
-        exact ⟨by rw [a1]; rfl, by rw [a2]; simp [docItems], by rw [a3]; simp [docItems], by rw [a4]; simp [docItems],
+        exact ⟨by rw [a1]; rfl, by rw [a2]; simp [docStepItems], by rw [a3]; simp [docStepItems], by rw [a4]; simp [docStepItems],
           a5, a6, a7, a8, a9⟩
     | sect name =>
       obtain ⟨c, h1, h2⟩ := ih hr
@@ -328,9 +328,9 @@ theorem rts_parseEvents_doc (env : Env) (input : Str) (hadv : env.ext.has Gen.EX
     (hinl : env.ext.has Gen.EXT_INLINE_QUANTITIES = false) (blocks : List (SBlock α)) (hok : ∀ b ∈ blocks, b.OK env) :
     ∃ c : Col α, parseEvents env input (blocks.flatMap SBlock.events) = ⟨some c, c.diags, none⟩ ∧
       c.sections = docSecs env [] ⟨none, []⟩ 1 blocks ∧
-      c.ingredients.toList = (ingrsOf (docItems blocks)).map (ingrOf env) ∧
-      c.cookware.toList = (cwsOf (docItems blocks)).map (cwOf env) ∧
-      c.timers.toList = (timersOf (docItems blocks)).map (timerOf env) ∧
+      c.ingredients.toList = (ingrsOf (docStepItems blocks)).map (ingrOf env) ∧
+      c.cookware.toList = (cwsOf (docStepItems blocks)).map (cwOf env) ∧
+      c.timers.toList = (timersOf (docStepItems blocks)).map (timerOf env) ∧
       c.metaMap = docMeta env [] (docEntries blocks) ∧
       c.diags = deprecation (docSpans (docEntries blocks)) ∧
       c.inlineQ = #[] ∧ c.frontMatter = none := by
